@@ -198,4 +198,153 @@ mod verif_standins {
             assert_eq!(&base[..], &h.finalize()[..], "STANDIN Context::new: not the SHA3-256 digest of the whole transcript ({} bytes)", len);
         }
     }
+
+    /// C01 (verifier exactness, bounded): a cheating customer that runs the establish prover on a STATE message and a CLOSE-STATE
+    /// message of its choice.  With the honest messages the forged proof must be accepted (sanity of the forger); with any
+    /// single slot of either message moved away from the agreed values it must be refused - every conjunct of the relation matters.
+    fn forge_establish(rng: &mut rand::rngs::StdRng, cfg: &crate::customer::Config, state_msg: [bls12_381::Scalar; 5], close_msg: [bls12_381::Scalar; 5],
+                       public: (bls12_381::Scalar, bls12_381::Scalar, bls12_381::Scalar), context: &Context) -> EstablishProof {
+        use zkchannels_crypto::{proofs::{ChallengeBuilder, SignatureRequestProofBuilder}, Message};
+        let pk = cfg.merchant_public_key();
+        let sb = SignatureRequestProofBuilder::generate_proof_commitments(rng, Message::new(state_msg), &[None; 5], pk);
+        let cs = *sb.conjunction_commitment_scalars();
+        let cb = SignatureRequestProofBuilder::generate_proof_commitments(rng, Message::new(close_msg), &[Some(cs[0]), None, Some(cs[2]), Some(cs[3]), Some(cs[4])], pk);
+        let ccs = *cb.conjunction_commitment_scalars();
+        // the challenge is what the verifier will recompute: take it from the verifier's own code path by building a proof
+        // object first with a dummy challenge is impossible, so the transcript is rebuilt here in the documented order; if the
+        // order ever changes the sanity check below fails and the stand-in reports nothing
+        let challenge = ChallengeBuilder::new()
+            .with(pk).with(&public.0).with(&crate::CLOSE_SCALAR).with(&public.1).with(&public.2)
+            .with(&sb).with(&cb)
+            .with(&ccs[0]).with(&ccs[1]).with(&ccs[3]).with(&ccs[4])
+            .with_bytes(context.as_bytes())
+            .finish();
+        EstablishProof {
+            channel_id_commitment_scalar: ccs[0], close_tag_commitment_scalar: ccs[1], customer_balance_commitment_scalar: ccs[3], merchant_balance_commitment_scalar: ccs[4],
+            state_proof: sb.generate_proof_response(challenge), close_state_proof: cb.generate_proof_response(challenge),
+        }
+    }
+
+    #[test]
+    fn standin_establish_cheating_prover() {
+        use bls12_381::Scalar;
+        let mut rng = rng();
+        let m = merchant::Config::new(&mut rng);
+        let cfg = m.to_customer_config();
+        for (merch, cust) in [(7u64, 100u64), (0, 1), (i64::MAX as u64, 3)] {
+            let id = cid(&mut rng, &m);
+            let honest = State::new(&mut rng, id, MerchantBalance::try_new(merch).unwrap(), CustomerBalance::try_new(cust).unwrap());
+            let ctx = Context::new(b"standin cheat");
+            let pv = EstablishProofPublicValues { channel_id: id, merchant_balance: honest.merchant_balance(), customer_balance: honest.customer_balance() };
+            let public = (id.to_scalar(), honest.customer_balance().to_scalar(), honest.merchant_balance().to_scalar());
+            let sm = *honest.to_message();
+            let cm = *honest.close_state().to_message();
+            let sane = forge_establish(&mut rng, &cfg, sm, cm, public, &ctx);
+            if sane.verify(&m, &pv, &ctx).is_none() {
+                // the forger no longer mirrors the prover (e.g. the transcript layout changed): inconclusive, say nothing
+                return;
+            }
+            for slot in 0..5 {
+                for delta in [Scalar::one(), -Scalar::one(), Scalar::from(1u64 << 40)] {
+                    let mut s2 = sm; s2[slot] += delta;
+                    let p = forge_establish(&mut rng, &cfg, s2, cm, public, &ctx);
+                    // slot 1 of the state (the nonce) is free: any nonce is a valid state
+                    if slot != 1 {
+                        assert!(p.verify(&m, &pv, &ctx).is_none(), "STANDIN EstablishProof::verify: accepted a proof whose hidden STATE differs from the agreed values in slot {} (0 channel id, 2 revocation lock vs close state, 3 customer balance, 4 merchant balance); agreed merchant {}, customer {}", slot, merch, cust);
+                    }
+                    let mut c2 = cm; c2[slot] += delta;
+                    let p = forge_establish(&mut rng, &cfg, sm, c2, public, &ctx);
+                    assert!(p.verify(&m, &pv, &ctx).is_none(), "STANDIN EstablishProof::verify: accepted a proof whose hidden CLOSE STATE differs from the agreed values in slot {} (0 channel id, 1 close tag, 2 revocation lock vs state, 3 customer balance, 4 merchant balance); agreed merchant {}, customer {}", slot, merch, cust);
+                }
+            }
+            // both messages moved together in the lock slot is a different (valid) state: accepted
+            let mut s2 = sm; s2[2] += Scalar::one();
+            let mut c2 = cm; c2[2] += Scalar::one();
+            assert!(forge_establish(&mut rng, &cfg, s2, c2, public, &ctx).verify(&m, &pv, &ctx).is_some(), "STANDIN EstablishProof::verify: refused a consistent state with another revocation lock");
+        }
+    }
+
+    /// C02 (verifier exactness, bounded): a cheating customer that runs the pay prover with a new-state message, a close-state
+    /// message, a committed lock and range values of its choice (the old state and pay token are honest).
+    #[allow(clippy::too_many_arguments)]
+    fn forge_pay(rng: &mut rand::rngs::StdRng, cfg: &crate::customer::Config, token: crate::states::PayToken, old: &State, new_msg: [bls12_381::Scalar; 5],
+                 close_msg: [bls12_381::Scalar; 5], lock_msg: bls12_381::Scalar, range_values: (i64, i64), context: &Context) -> PayProof {
+        use zkchannels_crypto::{proofs::{ChallengeBuilder, CommitmentProofBuilder, RangeConstraintBuilder, SignatureProofBuilder, SignatureRequestProofBuilder}, Message};
+        let crb = RangeConstraintBuilder::generate_constraint_commitments(range_values.0, &cfg.range_constraint_parameters, rng).unwrap();
+        let mrb = RangeConstraintBuilder::generate_constraint_commitments(range_values.1, &cfg.range_constraint_parameters, rng).unwrap();
+        let (ccs, mcs) = (crb.commitment_scalar(), mrb.commitment_scalar());
+        let rb = CommitmentProofBuilder::generate_proof_commitments(rng, Message::new([lock_msg]), &[None], &cfg.revocation_commitment_parameters);
+        let rcs = rb.conjunction_commitment_scalars()[0];
+        let tb = SignatureProofBuilder::generate_proof_commitments(rng, old.to_message(), token.0, &[None, None, Some(rcs), Some(ccs), Some(mcs)], &cfg.merchant_public_key);
+        let cid_cs = tb.conjunction_commitment_scalars()[0];
+        let sb = SignatureRequestProofBuilder::generate_proof_commitments(rng, Message::new(new_msg), &[Some(cid_cs), None, None, Some(ccs), Some(mcs)], cfg.merchant_public_key());
+        let cs = *sb.conjunction_commitment_scalars();
+        let cb = SignatureRequestProofBuilder::generate_proof_commitments(rng, Message::new(close_msg), &[Some(cs[0]), None, Some(cs[2]), Some(cs[3]), Some(cs[4])], cfg.merchant_public_key());
+        let challenge = ChallengeBuilder::new()
+            .with(&cfg.merchant_public_key).with(&cfg.range_constraint_parameters).with(&old.nonce().as_scalar()).with(&crate::CLOSE_SCALAR)
+            .with(&rb).with(&sb).with(&cb).with(&tb).with(&crb).with(&mrb)
+            .with(&tb.conjunction_commitment_scalars()[1]).with(&cb.conjunction_commitment_scalars()[1])
+            .with_bytes(context.as_bytes())
+            .finish();
+        PayProof {
+            old_nonce_commitment_scalar: tb.conjunction_commitment_scalars()[1],
+            close_tag_commitment_scalar: cb.conjunction_commitment_scalars()[1],
+            old_pay_token_proof: tb.generate_proof_response(challenge),
+            old_revocation_lock_proof: rb.generate_proof_response(challenge),
+            state_proof: sb.generate_proof_response(challenge),
+            close_state_proof: cb.generate_proof_response(challenge),
+            customer_balance_proof: crb.generate_constraint_response(challenge),
+            merchant_balance_proof: mrb.generate_constraint_response(challenge),
+        }
+    }
+
+    #[test]
+    fn standin_pay_cheating_prover() {
+        use bls12_381::Scalar;
+        let mut rng = rng();
+        let m = merchant::Config::new(&mut rng);
+        let cfg = m.to_customer_config();
+        for (merch, cust, pay) in [(20u64, 100u64, 10i64), (50, 50, -7)] {
+            let id = cid(&mut rng, &m);
+            let old = State::new(&mut rng, id, MerchantBalance::try_new(merch).unwrap(), CustomerBalance::try_new(cust).unwrap());
+            let ectx = Context::new(b"standin establish");
+            let (eproof, _, pt_bf) = EstablishProof::new(&mut rng, &cfg, &old, &ectx);
+            let (vs, _) = eproof.verify(&m, &EstablishProofPublicValues { channel_id: id, merchant_balance: old.merchant_balance(), customer_balance: old.customer_balance() }, &ectx).expect("STANDIN: honest establish proof rejected");
+            let token: crate::states::PayToken = BlindedPayToken::sign(&mut rng, &m, vs).unblind(pt_bf);
+            let amount = if pay >= 0 { PaymentAmount::pay_merchant(pay as u64).unwrap() } else { PaymentAmount::pay_customer((-pay) as u64).unwrap() };
+            let new = old.apply_payment(&mut rng, amount).unwrap();
+            let ctx = Context::new(b"standin pay cheat");
+            let pv = PayProofPublicValues { old_nonce: *old.nonce(), amount };
+            let nm = *new.to_message();
+            let cm = *new.close_state().to_message();
+            let lock = old.revocation_lock().to_scalar();
+            let vals = (new.customer_balance().into_inner() as i64, new.merchant_balance().into_inner() as i64);
+            let sane = forge_pay(&mut rng, &cfg, token.clone(), &old, nm, cm, lock, vals, &ctx);
+            if sane.verify(&m, &pv, &ctx).is_none() {
+                return; // the forger no longer mirrors the prover: inconclusive
+            }
+            let reject = |p: PayProof, what: &str| { assert!(p.verify(&m, &pv, &ctx).is_none(), "STANDIN PayProof::verify: accepted a proof in which {} (old {} / {}, amount {})", what, merch, cust, pay); };
+            // new state: channel id, balances (with range proofs on the cheated values)
+            let mut x = nm; x[0] += Scalar::one();
+            reject(forge_pay(&mut rng, &cfg, token.clone(), &old, x, cm, lock, vals, &ctx), "the new state is on another channel id");
+            for d in [1i64, -1] {
+                let mut x = nm; x[3] = Scalar::from((vals.0 + d) as u64);
+                reject(forge_pay(&mut rng, &cfg, token.clone(), &old, x, cm, lock, (vals.0 + d, vals.1), &ctx), "the new customer balance is not the old one minus the amount");
+                let mut x = nm; x[4] = Scalar::from((vals.1 + d) as u64);
+                reject(forge_pay(&mut rng, &cfg, token.clone(), &old, x, cm, lock, (vals.0, vals.1 + d), &ctx), "the new merchant balance is not the old one plus the amount");
+                // balances that differ from the range-proved values
+                let mut x = nm; x[3] = Scalar::from((vals.0 + d) as u64);
+                let mut c = cm; c[3] = x[3];
+                reject(forge_pay(&mut rng, &cfg, token.clone(), &old, x, c, lock, vals, &ctx), "the new customer balance is not the range-proved value");
+            }
+            // close state: every slot
+            for (slot, what) in [(0usize, "the close state is on another channel id"), (1, "the close state does not carry the close tag"), (2, "the close state has another revocation lock than the new state"),
+                                 (3, "the close state has another customer balance than the new state"), (4, "the close state has another merchant balance than the new state")] {
+                let mut c = cm; c[slot] += Scalar::one();
+                reject(forge_pay(&mut rng, &cfg, token.clone(), &old, nm, c, lock, vals, &ctx), what);
+            }
+            // committed revocation lock is not the old state's lock
+            reject(forge_pay(&mut rng, &cfg, token.clone(), &old, nm, cm, lock + Scalar::one(), vals, &ctx), "the committed revocation lock is not the old state's lock");
+        }
+    }
 }
